@@ -126,9 +126,26 @@ def _str_eq_model(m, callee, args):
 _prepend(r'^<str as PartialEq>::eq$', _str_eq_model)
 
 
+RUST_KEYWORDS = ['as', 'break', 'const', 'continue', 'crate', 'else', 'enum', 'extern', 'false', 'fn', 'for', 'if', 'impl', 'in', 'let', 'loop',
+                 'match', 'mod', 'move', 'mut', 'pub', 'ref', 'return', 'self', 'Self', 'static', 'struct', 'super', 'trait', 'true', 'type',
+                 'unsafe', 'use', 'where', 'while', 'async', 'await', 'dyn', 'abstract', 'become', 'box', 'do', 'final', 'macro', 'override',
+                 'priv', 'typeof', 'unsized', 'virtual', 'yield', 'try']
+
+
 def _parse_ident(m, callee, args):
+    """`input.call(IdentExt::parse_any)` accepts every identifier-like token; `input.parse::<Ident>()` rejects Rust keywords
+    (`type`, `crate`, `as`, ..) -- the difference matters for attribute keys"""
     b = buf(m, args[0])
     if b.pos < b.n and b.kind(m, b.pos) == 'ident':
+        if '::call::<' not in callee:
+            t = b.texts[b.pos]
+            if t is not None:
+                if t in RUST_KEYWORDS:
+                    return ERR(synerr('expected identifier, found keyword'))
+            else:
+                for w in VOCAB:
+                    if w in RUST_KEYWORDS and m.ctx.decide(b.atoms[b.pos].var == VOCAB.index(w)):
+                        return ERR(synerr('expected identifier, found keyword'))
         b.pos += 1
         return OK(('ident', b, b.pos - 1))
     return ERR(synerr('expected identifier'))
